@@ -3,6 +3,9 @@ CONSTANTS
   Miner = {"m1", "m2"}
   Sharder = {"s1", "s2", "s3"}
   MaxFee = 5
+  MaxTxns = 3
+  MinFee = 1
+  SkipExempt = FALSE
   Reward = 3
   Ratios <- MCRatios
   NSh = 3
